@@ -27,12 +27,12 @@ func ParseTrex(p []byte) (*Trex, error) {
 
 // Tfhd is a parsed TrackFragmentHeaderBox (§8.8.7).
 type Tfhd struct {
-	Flags                                                  uint32
-	TrackID                                                uint32
-	BaseDataOffset                                         uint64
-	SDI, DefaultDuration, DefaultSize, DefaultFlags        uint32
-	HasBase, HasSDI, HasDuration, HasSize, HasFlags        bool
-	DurationIsEmpty, DefaultBaseIsMoof                     bool
+	Flags                                           uint32
+	TrackID                                         uint32
+	BaseDataOffset                                  uint64
+	SDI, DefaultDuration, DefaultSize, DefaultFlags uint32
+	HasBase, HasSDI, HasDuration, HasSize, HasFlags bool
+	DurationIsEmpty, DefaultBaseIsMoof              bool
 }
 
 // ParseTfhd parses a tfhd payload.
